@@ -50,11 +50,10 @@ def alphabet(cap):
             [["frames", k] for k in range(0, cap + 2)])
 
 
-def tail(cap, ln, srclen, depth=1):
-    """observation sweep past exhaustion with is_exhausted watched: one frame at a time after
-    depth-1 scripts, whole batches after the deeper ones"""
+def tail(cap, ln, srclen, one_by_one=False):
+    """observation sweep past exhaustion with is_exhausted watched: one frame at a time, or in whole batches"""
     t = [["exh"]]
-    if depth == 1:
+    if one_by_one:
         for _ in range(ln + srclen + 2 * cap + 1):
             t += [["next"], ["exh"]]
     else:
@@ -71,11 +70,11 @@ def gen_cases(rng, tier):
         data = [10 * (i + 1) for i in range(cap)]
         alpha = alphabet(cap)
         if tier == "quick":
-            plans = [(1, list(range(0, 14)))]
+            plans = [(0, list(range(0, 14))), (1, list(range(0, 14)))]
             if cap <= 3:
                 plans.append((2, sorted({0, cap, cap + 1, 2 * cap + 1})))
         else:
-            plans = [(1, list(range(0, 14))), (2, list(range(0, 14)))]
+            plans = [(0, list(range(0, 14))), (1, list(range(0, 14))), (2, list(range(0, 14)))]
             if cap <= 3:
                 plans.append((3, list(range(0, 14))))
         for depth, srclens in plans:
@@ -85,7 +84,7 @@ def gen_cases(rng, tier):
                         src = [101 + i for i in range(sl)]
                         for script in itertools.product(alpha, repeat=depth):
                             items.append(build(dict(store=k % 4, ftype=(k // 4) % 2, start=start, len=ln, data=data,
-                                                    src=src, ops=[list(o) for o in script] + tail(cap, ln, sl, depth),
+                                                    src=src, ops=[list(o) for o in script] + tail(cap, ln, sl, depth == 0),
                                                     group=f"exh{depth}")))
                             k += 1
     # constructor asserts (malformed raw parts, capacity 0)
@@ -235,7 +234,7 @@ def finish(rep, info, n, nontriv, dist, samples, bad=()):
             "reused: the C06 Bounded model and its refinement lemmas (Ring/BoundedProofs.v)"],
         "theorems": th, "axioms_reported": info.get("axioms", []),
         "evaluations": n, "distinct_nontrivial": nontriv,
-        "rule": "every script of depth 1 (quick: depth 2 for capacities <= 3; thorough: depth 2 everywhere, depth 3 for capacities <= 3) over {next, frames 0..cap+1, manual cap+2, all, hint, exh} from every raw (start,len) state of capacities 1..5 and source lengths 0..13, each followed by a drain past exhaustion (one frame at a time after depth-1 scripts, whole batches after deeper ones) with is_exhausted watched, plus random scripts (2500 quick / 40000 thorough) on capacities 1..16, 4 storage kinds x 2 frame types; non-trivial = a refill (source pull counter rises) happens while the ring's start index != 0, or a partial drain (batch yields >= 1 frame and leaves >= 1) is directly followed by next",
+        "rule": "every script of depth 0 and 1 (quick: depth 2 for capacities <= 3 on 4 source lengths; thorough: depth 2 everywhere, depth 3 for capacities <= 3) over {next, frames 0..cap+1, manual cap+2, all, hint, exh} from every raw (start,len) state of capacities 1..5 and source lengths 0..13, each followed by a drain past exhaustion (one frame at a time after the empty script, whole batches after the others) with is_exhausted watched, plus random scripts (2500 quick / 40000 thorough) on capacities 1..16, 4 storage kinds x 2 frame types; non-trivial = a refill (source pull counter rises) happens while the ring's start index != 0, or a partial drain (batch yields >= 1 frame and leaves >= 1) is directly followed by next",
         "samples": samples, "input_distribution": dist, "disagreements": len(bad),
         "explanation": "theorems: refinement of the model to the ideal prefetcher and its stream / pull-block / exhaustion / padding consequences for all capacities, states, sources and histories; tie: the model's executable definitions run by coqc on the same cases as the real crate, every observation (frames, both pull counters after each op, size_hint, is_exhausted, final ring content) compared exactly",
     }
